@@ -9,7 +9,7 @@ TRUSTED = [
     "modelled, not verified: Parser (deck text -> DeckItems), EclipseGrid geometry and its active map (specified by `rank`; the real Box class is driven directly with arbitrary maps), libm (pow/log/log10 are called on both sides)",
     "the one-cell semantics runProg1/runProg1N of the independence proofs are proof devices, tied to the code only through the theorems (no direct correspondence line)",
     "outside the model: PORV/TRAN*/TEMPI/saturation end points, multi-valued (compositional) keywords (only the fixed witness), SCHEDULE-section multipliers, aliases, GRIDOPTS/MULTREGP",
-    "three defects found while building the check (design.d/C12.md findings 1-3) are fixed in the code (5ceb9fc1d, d8c0ea4e0, 0679405ff); their reproductions run as fixed property-mode witnesses",
+    "four defects found by the check (design.d/C12.md findings 1-3, 6) are fixed in the code (5ceb9fc1d, d8c0ea4e0, 0679405ff, bf5bceae1); the reproductions of 1-3 run as fixed property-mode witnesses, 6 is covered by the armed accept/reject clause and the OPERATER-then-must-exist generator",
 ]
 
 
